@@ -40,11 +40,11 @@ def tier_config(prop, tier):
 
 EVAL_OPS = [
     ("pdf", 5), ("cdf", 0.5), ("marginal_pdf", 1.2), ("marginal_cdf", 0.8), ("marginal_icdf", 1.2), ("conditional_cdf", 1.5), ("conditional_icdf", 1.5), ("dist_icdf", 1.5), ("dist_pdf", 1.5),
-    ("draw_int", 3), ("draw_gen", 2), ("iform", 3), ("isorm", 2), ("hdc", 1.5), ("direct", 1.5), ("and", 1), ("or", 1), ("design", 1.5),
+    ("draw_int", 3), ("draw_gen", 2), ("iform", 3), ("isorm", 2), ("hdc", 1.5), ("hdc_small", 0.8), ("direct", 1.5), ("and", 1), ("or", 1), ("design", 1.5),
     ("plot_contour", 2), ("plot_iso", 0.8), ("plot_dep", 1.2), ("plot_mq", 0.5), ("plot_hist", 0.8), ("save", 1.5), ("slice", 1.5),
     ("touch_returned", 1.5), ("deepcopy_eval", 1.0), ("repr", 0.5),
 ]
-T_OPS = [("pdf", 4), ("draw_int", 3), ("t_iform", 1.0), ("t_empirical", 0.6), ("t_cond_sample", 1.5)]
+T_OPS = [("pdf", 4), ("draw_int", 3), ("t_iform", 1.0), ("t_empirical", 0.6), ("t_cond_sample", 1.5), ("t_empirical_sample", 1.2)]
 
 
 def generate(prop, seed, tier):
@@ -85,16 +85,16 @@ def generate(prop, seed, tier):
             continue
         if sl.get("transformed") and S.chance(0.35):
             # evaluation / cache-creating operation / the same evaluation again
-            first = {"op": S.pick(["draw_int", "t_cond_sample", "t_iform"] if S.chance(0.8) else ["pdf"]), "slot": s, "aseed": S.sub("a", k), "as_list": False}
+            first = {"op": S.pick(["draw_int", "t_cond_sample", "t_iform", "t_empirical"] if S.chance(0.8) else ["pdf"]), "slot": s, "aseed": S.sub("a", k), "as_list": False}
             ops.append(first)
-            ops.append({"op": "t_empirical", "slot": s, "aseed": S.sub("b", k), "as_list": False})
+            ops.append({"op": "t_empirical" if first["op"] != "t_empirical" else "t_empirical_sample", "slot": s, "aseed": S.sub("b", k), "as_list": False})
             ops.append(dict(first, repeat_of=len(ops) - 2))
             continue
         if sl.get("transformed"):
             name = S.wpick(T_OPS)
         else:
             name = S.wpick(EVAL_OPS)
-            if sl["kind"] == "direct3" and name in ("hdc", "direct", "and", "or", "design", "plot_contour", "plot_iso", "cdf", "plot_dep", "plot_hist", "plot_mq", "slice"):
+            if sl["kind"] == "direct3" and name in ("hdc", "hdc_small", "direct", "and", "or", "design", "plot_contour", "plot_iso", "cdf", "plot_dep", "plot_hist", "plot_mq", "slice"):
                 name = S.pick(["pdf", "iform", "isorm", "draw_int", "marginal_icdf", "save"])
             if sl["kind"] == "direct2" and name in ("plot_dep", "plot_hist", "plot_mq", "slice"):
                 name = S.pick(["pdf", "iform", "hdc", "draw_int", "plot_contour"])
@@ -172,6 +172,20 @@ def module_globals():
     from virocon import variable_transform as vt
 
     return {"g": float(vt.g).hex(), "factor": float(vt.factor).hex(), "factor_sqrt": float(vt.factor_sqrt).hex()}
+
+
+def process_state():
+    """interpreter-wide settings an evaluation has no business changing (a leaked warnings filter turns
+    every later warning of any library into an exception; error state and print options change results)"""
+    import os
+    import warnings
+
+    return {
+        "warnings.filters": [repr((f[0], getattr(f[1], "pattern", f[1]), getattr(f[2], "__name__", f[2]), getattr(f[3], "pattern", f[3]), f[4])) for f in warnings.filters],
+        "numpy.geterr": sorted(np.geterr().items()),
+        "numpy.printoptions": sorted((k, repr(v)) for k, v in np.get_printoptions().items()),
+        "cwd": os.getcwd(),
+    }
 
 
 def first_diff(a, b, path="model"):
@@ -333,6 +347,12 @@ def run_op(slot, op, root):
         c = v.HighestDensityContour(m, 0.2, limits=lim, deltas=[(l[1] - l[0]) / 40 for l in lim])
         co = c.coordinates
         return (np.asarray(co, dtype=float) if not isinstance(co, list) else [np.asarray(p, dtype=float) for part in co for p in part]), inputs
+    if name == "hdc_small":
+        # limits that cannot contain 1 - alpha of the probability: the documented warning path
+        lim = [(0, float(np.median(slot.data[:, i]) * 0.7)) if slot.data is not None else (0, 1.5) for i in range(2)]
+        c = v.HighestDensityContour(m, 0.2, limits=lim, deltas=[(l[1] - l[0]) / 30 for l in lim])
+        co = c.coordinates
+        return (np.asarray(co, dtype=float) if not isinstance(co, list) else [np.asarray(p, dtype=float) for part in co for p in part]), inputs
     if name in ("direct", "and", "or", "design", "plot_contour", "save"):
         if slot.n_dim == 2:
             sample = arr(np.asarray(m.draw_sample(1500, random_state=int(op["aseed"] % 9973)), dtype=float))
@@ -405,6 +425,11 @@ def run_op(slot, op, root):
         pts = _points(slot, rng, 2)
         x = arr(pts[0].copy() if rng.random() < 0.5 else pts)
         return np.asarray(m.empirical_cdf(x)), inputs
+    if name == "t_empirical_sample":
+        # the caller supplies the sample the proportions are to be counted in
+        pts = _points(slot, rng, 2)
+        smp = arr(_points(slot, rng, 400))
+        return np.asarray(m.empirical_cdf(pts, sample=smp)), inputs
     if name == "t_cond_sample":
         return np.asarray(m.conditional_sample(2000, 1, [float(_points(slot, rng, 1)[0, 0])], random_state=int(op["aseed"] % 1000))), inputs
     raise ValueError(name)
@@ -476,6 +501,7 @@ def execute_universe(scen, only_slot=None, run=None):
         base_names = {i: snaps[i][1]["__names__"] for i in snaps}
         cache_names = {i: set() for i in snaps}  # private attributes that first appeared during an evaluation
         glob0 = module_globals()
+        proc0 = process_state()
         for k, op in enumerate(scen["ops"]):
             if op["op"] == "skew":
                 seams.pin_global(op["k"])
@@ -549,6 +575,10 @@ def execute_universe(scen, only_slot=None, run=None):
                     if module_globals() != glob0:
                         run.violate("I2-module-globals-changed", "variable_transform", {"step": k})
                         return digests
+                    ps = process_state()
+                    if ps != proc0:
+                        run.violate("I2-process-state-changed", "+".join(kk for kk in ps if ps[kk] != proc0[kk]), {"step": k})
+                        return digests
                     for j, other in slots.items():
                         if other.shadow is not None:
                             ok_, ref_, now_ = check_shadow(other)
@@ -587,6 +617,14 @@ def execute_universe(scen, only_slot=None, run=None):
                             run.violate("I1-caller-array-modified", f"{op['op']}/{what}", {"slot": s, "kind": slot.spec["kind"], "shape_before": list(shp), "shape_after": list(a.shape), "step": k})
                             return digests
             digests[k] = results[0]
+            if checking and inputs:
+                # an evaluation must not keep the caller's array: what the caller does with it later would
+                # change the model's answers
+                held = [a for a in arrays_reachable(slot.model) if any(np.shares_memory(a, inp) for inp, _ in inputs)]
+                run.count("probe:caller-arrays-checked-for-aliasing", len(inputs))
+                if held:
+                    run.violate("I1-model-keeps-callers-array", f"{op['op']}", {"slot": s, "kind": slot.spec["kind"], "shape": list(held[0].shape), "step": k})
+                    return digests
             if checking:
                 run.event(op["op"], [s, op["aseed"]], results[0])
                 run.count("evaluations_executed", reps)
@@ -621,10 +659,52 @@ def execute_universe(scen, only_slot=None, run=None):
                 if module_globals() != glob0:
                     run.violate("I1-module-globals-changed", f"{op['op']}", {"step": k})
                     return digests
+                ps = process_state()
+                if ps != proc0:
+                    changed = [kk for kk in ps if ps[kk] != proc0[kk]]
+                    detail = {"step": k, "raised": type(exc).__name__ if exc is not None else None}
+                    if "warnings.filters" in changed:
+                        detail["filters_added"] = [f for f in ps["warnings.filters"] if f not in proc0["warnings.filters"]][:4]
+                    run.violate("I1-process-state-changed", f"{op['op']}/" + "+".join(changed), detail)
+                    return digests
     finally:
         plt.close("all")
         shutil.rmtree(root, ignore_errors=True)
     return digests
+
+
+def arrays_reachable(obj):
+    """every ndarray reachable from obj through attributes, containers and partials"""
+    out, seen = [], set()
+
+    def walk(o):
+        if o is None or isinstance(o, (bool, int, float, str, bytes, np.integer, np.floating, types.FunctionType, types.BuiltinFunctionType, type, types.ModuleType)):
+            return
+        if id(o) in seen:
+            return
+        seen.add(id(o))
+        if isinstance(o, np.ndarray):
+            out.append(o)
+            return
+        if isinstance(o, functools.partial):
+            walk(o.args)
+            walk(o.keywords)
+            return
+        if isinstance(o, dict):
+            for v in o.values():
+                walk(v)
+            return
+        if isinstance(o, (list, tuple, set)):
+            for v in o:
+                walk(v)
+            return
+        d = getattr(o, "__dict__", None)
+        if d is not None:
+            for v in d.values():
+                walk(v)
+
+    walk(obj)
+    return out
 
 
 def shared_mutables(a, b):
